@@ -238,11 +238,16 @@ CDataQ == << T("CD", <<>>), T("CD", <<120>>), T("CD", <<32, 120>>), T("CD", <<12
              T("CD", <<93, 93>>), T("CD", <<97, 38, 98>>) >>
 OtherQ == << T("CM", <<99>>), T("PI", <<112>>) >>
 VocabQuick == Tags \o TextsQ \o CDataQ \o OtherQ
-TextsT == TextsQ \o << T("TX", <<10, 32>>), T("TX", <<1032, 120>>), T("TX", <<32, 32, 120, 9, 10, 121>>),
-                      T("TX", <<1062>>), T("TX", <<93, 93>>) >>
-CDataT == CDataQ \o << T("CD", <<60, 60, 60, 60, 60>>), T("CD", <<32>>), T("CD", <<62>>) >>
+\* exhaustive in the thorough tier (22 kinds): adds a reference to a blank, "]]" / ">" material, a CDATA that stays
+\* CDATA is left to the random walks
+TextsT == TextsQ \o << T("TX", <<1032, 120>>), T("TX", <<1062>>), T("TX", <<93, 93>>) >>
+CDataT == << T("CD", <<>>), T("CD", <<120>>), T("CD", <<32, 120>>), T("CD", <<120, 32>>), T("CD", <<60>>),
+             T("CD", <<93, 93>>), T("CD", <<62>>) >>
 VocabThorough == Tags \o TextsT \o CDataT \o OtherQ \o << T("DT", <<97>>) >>
-\* random walks only (not exhaustive): blanks that come from references, CR LF, blank-only CDATA with a newline
-VocabSim == VocabThorough \o << T("TX", <<1032>>), T("TX", <<120, 1010>>), T("TX", <<1009, 120, 32>>), T("CD", <<10>>),
+\* random walks only (not exhaustive): newline blanks, long blank runs, CDATA that is kept / blank-only / with "&",
+\* blanks that come from references, CR LF
+VocabSim == VocabThorough \o << T("TX", <<10, 32>>), T("TX", <<32, 32, 120, 9, 10, 121>>), T("CD", <<97, 38, 98>>),
+                                 T("CD", <<60, 60, 60, 60, 60>>), T("CD", <<32>>),
+                                 T("TX", <<1032>>), T("TX", <<120, 1010>>), T("TX", <<1009, 120, 32>>), T("CD", <<10>>),
                                  T("TX", <<120, 13, 10, 121>>), T("TX", <<1013, 10>>) >>
 =============================================================================
